@@ -21,6 +21,7 @@ CYCLES = {
                            "(ev/write c \"ping\") (ev/read a 4) (:close c) (:close a) (:close srv))",
     "spawn-wait": "(let [p (os/spawn [\"sim-child\" \"w10\" \"x0\"] :p {:out :pipe})] (ev/read (p :out) 10) (os/proc-wait p) (os/proc-close p))",
     "spawn-wait-only": "(let [p (os/spawn [\"sim-child\" \"s1\" \"x3\"] :p)] (os/proc-wait p))",
+    "proc-wait-abandoned": "(let [p (os/spawn [\"sim-child\" \"s4\" \"x0\"] :p)] (protect (ev/with-deadline 0.002 (os/proc-wait p))) (ev/sleep 0.004))",
     "spawn-drop": "(do (os/spawn [\"sim-child\" \"x0\"] :p {:out :pipe}) nil)",
     "chan-pingpong": "(let [c (ev/chan)] (ev/spawn (ev/give c 1)) (ev/take c))",
     "chan-buffered-drop": "(let [c (ev/chan 4)] (ev/give c @[1 2 3]) nil)",
